@@ -3,13 +3,405 @@
 -/
 import GilVerif.Model.C13
 import GilVerif.Lemmas.Codec
+import GilVerif.Gen.C13
 
 namespace GilVerif.Props.C13
-open GilVerif.Codec GilVerif.Model.C13
+open GilVerif.Codec GilVerif.Model.C13 GilVerif.Gen.C13
 
 /-- read_view accepts a view exactly when it is at least as large as the region -/
 theorem C13_small_view_rejected (vw vh dx dy : Nat) (h : vw < dx ∨ vh < dy) : viewAccepted vw vh dx dy = false := by
   unfold viewAccepted
   rcases h with h | h <;> simp <;> omega
+
+/-! ### sub-rectangle = crop of the full read -/
+
+/-- every row-wise reader (bmp raw / palette / 15-16 bit, pnm binary and ascii, targa raw): for EVERY byte string, row decoder and
+    rectangle inside the image, reading with `image_read_settings(top_left, dim)` gives the crop of reading with default settings -/
+theorem C13_crop_rowwise {α} (file : Bytes) (off : Nat → Nat) (len : Nat) (rowDec : Bytes → List α) (s : Settings) (w h : Nat)
+    (hin : s.Inside w h) :
+    readRows file off len rowDec s w h = crop s (readRows file off len rowDec Settings.full w h) :=
+  readRows_crop file off len rowDec s w h hin
+
+private theorem readRows_full_dims {α} (file : Bytes) (off : Nat → Nat) (len : Nat) (rowDec : Bytes → List α) (w h : Nat) :
+    (readRows file off len rowDec Settings.full w h).w = w ∧ (readRows file off len rowDec Settings.full w h).h = h := by
+  simp [readRows, Settings.full, Settings.dimX, Settings.dimY]
+
+/-- BMP 24 / 32 bit, any file bytes (any header variant, offset, padding): sub-rectangle read = crop of the full read -/
+theorem C13_crop_bmp {α} (f : PixFmt α) (file : Bytes) (s : Settings) (img : Img α)
+    (hfull : decodeBmp f file Settings.full = some img) (hin : s.Inside img.w img.h) :
+    decodeBmp f file s = some (crop s img) := by
+  unfold decodeBmp at hfull ⊢
+  cases hh : bmpReadHeader file with
+  | none => rw [hh] at hfull; cases hfull
+  | some p =>
+    obtain ⟨info, cur⟩ := p
+    rw [hh] at hfull
+    simp only at hfull ⊢
+    split at hfull
+    · split at hfull
+      · injection hfull with hfull
+        subst hfull
+        rename_i h1 h2
+        simp only [h1, h2, if_true]
+        obtain ⟨d1, d2⟩ := readRows_full_dims file (bmpGetOffset info (bmpPitch info)) (bmpPitch info) (decRow f info.width.toNat) info.width.toNat info.height.toNat
+        unfold bmpReadData at hin ⊢
+        rw [d1, d2] at hin
+        rw [readRows_crop _ _ _ _ s _ _ hin]
+      · cases hfull
+    · cases hfull
+
+/-- PNM binary (P5 / P6), any file bytes -/
+theorem C13_crop_pnm {α} (f : PixFmt α) (t : Nat) (file : Bytes) (s : Settings) (img : Img α)
+    (hfull : decodePnm f t file Settings.full = some img) (hin : s.Inside img.w img.h) :
+    decodePnm f t file s = some (crop s img) := by
+  unfold decodePnm at hfull ⊢
+  cases hh : pnmReadHeader file with
+  | none => rw [hh] at hfull; cases hfull
+  | some p =>
+    obtain ⟨info, data⟩ := p
+    rw [hh] at hfull
+    simp only at hfull ⊢
+    split at hfull
+    · injection hfull with hfull
+      subst hfull
+      rename_i h1
+      simp only [h1, if_true]
+      obtain ⟨d1, d2⟩ := readRows_full_dims data (fun j => j * pnmScanline info.type info.width) (pnmScanline info.type info.width) (decRow f info.width) info.width info.height
+      unfold pnmReadBin at hin ⊢
+      rw [d1, d2] at hin
+      rw [readRows_crop _ _ _ _ s _ _ hin]
+    · cases hfull
+
+/-- PNM mono (P4) at any bit offset, any file bytes, with the reader as it is (the per-byte manipulation does not matter here) -/
+theorem C13_crop_pnm_mono (rowDec : Bytes → List Bool) (file : Bytes) (s : Settings) (img : Img Bool)
+    (hfull : decodePnmMonoWith rowDec file Settings.full = some img) (hin : s.Inside img.w img.h) :
+    decodePnmMonoWith rowDec file s = some (crop s img) := by
+  unfold decodePnmMonoWith at hfull ⊢
+  cases hh : pnmReadHeader file with
+  | none => rw [hh] at hfull; cases hfull
+  | some p =>
+    obtain ⟨info, data⟩ := p
+    rw [hh] at hfull
+    simp only at hfull ⊢
+    split at hfull
+    · injection hfull with hfull
+      subst hfull
+      rename_i h1
+      simp only [h1, if_true]
+      obtain ⟨d1, d2⟩ := readRows_full_dims data (fun j => j * pnmScanline 4 info.width) (pnmScanline 4 info.width)
+        (fun bs => rowDec (padTo (pnmScanline 4 info.width) bs)) info.width info.height
+      rw [d1, d2] at hin
+      rw [readRows_crop _ _ _ _ s _ _ hin]
+    · cases hfull
+
+/-- TARGA raw and RLE, bottom-up and top-down (screen origin bit), 24 / 32 bit, any file bytes: the reader as fixed by cf66672
+    (seek to the region's first stored scanline; RLE: offset the row index) -/
+theorem C13_crop_targa {α} (f : PixFmt α) (file : Bytes) (s : Settings) (img : Img α)
+    (hfull : decodeTga f file Settings.full = some img) (hin : s.Inside img.w img.h) :
+    decodeTga f file s = some (crop s img) := by
+  have hfullIn : ∀ w h, Settings.full.Inside w h := by
+    intro w h; simp [Settings.Inside, Settings.full, Settings.dimX, Settings.dimY]
+  unfold decodeTga at hfull ⊢
+  cases hh : tgaReadHeader file with
+  | none => rw [hh] at hfull; cases hfull
+  | some info =>
+    rw [hh] at hfull
+    simp only at hfull ⊢
+    split at hfull
+    · cases hfull
+    · split at hfull
+      · split at hfull
+        · cases hfull
+        · split at hfull
+          · cases hfull
+          · rename_i h1 h2 h3 h4
+            simp only [h1, h2, h3, h4, if_false, if_true]
+            split at hfull
+            · -- raw
+              rename_i h5
+              simp only [h5, if_true]
+              injection hfull with hfull
+              rw [tgaReadRaw_eq f file info _ (hfullIn _ _)] at hfull
+              subst hfull
+              obtain ⟨d1, d2⟩ := readRows_full_dims file (tgaRowOff info) (info.width * (info.bpp / 8)) (decRow f info.width) info.width info.height
+              rw [d1, d2] at hin
+              rw [tgaReadRaw_eq f file info s hin, readRows_crop _ _ _ _ s _ _ hin]
+            · -- RLE
+              rename_i h5
+              simp only [h5, if_false]
+              rw [tgaReadRle_eq f file info _ (hfullIn _ _)] at hfull
+              cases hp : tgaRlePackets (info.bpp / 8) (info.width * info.height * (info.bpp / 8) + 1) (file.drop info.offset)
+                  (info.width * info.height * (info.bpp / 8)) with
+              | none => rw [hp] at hfull; cases hfull
+              | some data =>
+                rw [hp] at hfull
+                simp only [Option.map_some] at hfull
+                injection hfull with hfull
+                subst hfull
+                obtain ⟨d1, d2⟩ := readRows_full_dims data (tgaRleRowOff info) (info.width * (info.bpp / 8)) (decRow f info.width) info.width info.height
+                rw [d1, d2] at hin
+                rw [tgaReadRle_eq f file info s hin, hp]
+                simp only [Option.map_some]
+                rw [readRows_crop _ _ _ _ s _ _ hin]
+      · cases hfull
+
+private theorem sliceRow_map {α β} (g : α → β) (a b : Nat) (r : List α) : sliceRow a b (r.map g) = (sliceRow a b r).map g := by
+  simp [sliceRow, List.map_drop, List.map_take]
+
+private theorem crop_mapImg {α β} (g : α → β) (s : Settings) (img : Img α) : crop s (mapImg g img) = mapImg g (crop s img) := by
+  simp only [crop, mapImg, Img.mk.injEq, true_and]
+  rw [← List.map_drop, ← List.map_take, List.map_map, List.map_map]
+  apply List.map_congr_left
+  intro r _
+  exact sliceRow_map g _ _ r
+
+private theorem ok_crop {α β} (g : α → β) (file : Bytes) (off : Nat → Nat) (len : Nat) (rowDec : Bytes → List α) (s : Settings) (w h : Nat)
+    (img : Img β) (hfull : Res.ok (mapImg g (readRows file off len rowDec Settings.full w h)) = Res.ok img) (hin : s.Inside img.w img.h) :
+    Res.ok (mapImg g (readRows file off len rowDec s w h)) = Res.ok (crop s img) := by
+  injection hfull with hfull
+  subst hfull
+  obtain ⟨d1, d2⟩ := readRows_full_dims file off len rowDec w h
+  simp only [mapImg] at hin
+  rw [d1, d2] at hin
+  rw [readRows_crop _ _ _ _ s _ _ hin, crop_mapImg]
+
+private theorem ok_crop_id {α} (file : Bytes) (off : Nat → Nat) (len : Nat) (rowDec : Bytes → List α) (s : Settings) (w h : Nat)
+    (img : Img α) (hfull : Res.ok (readRows file off len rowDec Settings.full w h) = Res.ok img) (hin : s.Inside img.w img.h) :
+    Res.ok (readRows file off len rowDec s w h) = Res.ok (crop s img) := by
+  injection hfull with hfull
+  subst hfull
+  obtain ⟨d1, d2⟩ := readRows_full_dims file off len rowDec w h
+  rw [d1, d2] at hin
+  rw [readRows_crop _ _ _ _ s _ _ hin]
+
+/-- every BMP variant that is not run-length encoded -- 1/4/8-bit palette images (Windows and OS/2 headers, any palette size),
+    15/16-bit with default or bit-field masks, 24/32-bit, any header size, any file bytes: sub-rectangle read = crop of the full read -/
+theorem C13_crop_bmp_all (init : Rgba8) (file : Bytes) (s : Settings) (want : Option Nat) (img : Img Rgba8)
+    (hfull : bmpRead init file Settings.full want = Res.ok img) (hrle : bmpIsRle file = false) (hin : s.Inside img.w img.h) :
+    bmpRead init file s want = Res.ok (crop s img) := by
+  unfold bmpRead at hfull ⊢
+  unfold bmpIsRle at hrle
+  cases hh : bmpReadHeader file with
+  | none => rw [hh] at hfull; cases hfull
+  | some p =>
+    obtain ⟨info, cur⟩ := p
+    rw [hh] at hfull hrle
+    simp only [decide_eq_false_iff_not] at hrle
+    simp only at hfull ⊢
+    cases hn : bmpNativeBits info with
+    | none => rw [hn] at hfull; cases hfull
+    | some nb =>
+      rw [hn] at hfull
+      simp only at hfull ⊢
+      split at hfull
+      · cases hfull
+      · rename_i hw
+        simp only [hw, if_false]
+        cases hp : bmpPath info with
+        | rle => exact absurd hp hrle
+        | unsupported => rw [hp] at hfull; cases hfull
+        | palette =>
+          rw [hp] at hfull
+          simp only at hfull ⊢
+          cases hq : bmpReadPalette info cur with
+          | none => rw [hq] at hfull; cases hfull
+          | some q =>
+            obtain ⟨pl, rest⟩ := q
+            rw [hq] at hfull
+            exact ok_crop_id file _ _ _ s _ _ img hfull hin
+        | hi16 =>
+          rw [hp] at hfull
+          simp only at hfull ⊢
+          cases hm : bmpMasks info cur with
+          | none => rw [hm] at hfull; cases hfull
+          | some ms =>
+            rw [hm] at hfull
+            exact ok_crop _ file _ _ _ s _ _ img hfull hin
+        | rgb24 =>
+          rw [hp] at hfull
+          unfold bmpReadData at hfull ⊢
+          exact ok_crop _ file _ _ _ s _ _ img hfull hin
+        | rgba32 =>
+          rw [hp] at hfull
+          unfold bmpReadData at hfull ⊢
+          exact ok_crop_id file _ _ _ s _ _ img hfull hin
+
+/-- every PNM variant with byte pixels (ascii P1 / P2 / P3 and binary P5 / P6), any file bytes, converting or not -/
+theorem C13_crop_pnm_all {α} (f : PixFmt α) (isRgb convert : Bool) (file : Bytes) (s : Settings) (img : Img α)
+    (hfull : pnmRead f isRgb convert file Settings.full = Res.ok img) (hin : s.Inside img.w img.h) :
+    pnmRead f isRgb convert file s = Res.ok (crop s img) := by
+  unfold pnmRead at hfull ⊢
+  cases hh : pnmReadHeader file with
+  | none => rw [hh] at hfull; cases hfull
+  | some p =>
+    obtain ⟨info, data⟩ := p
+    rw [hh] at hfull
+    simp only at hfull ⊢
+    generalize (convert || (if isRgb = true then decide (info.type = 3 ∨ info.type = 6) else decide (info.type = 1 ∨ info.type = 2 ∨ info.type = 5))) = al at hfull ⊢
+    cases al
+    · simp at hfull
+    · simp only [if_true] at hfull ⊢
+      split at hfull
+      · rename_i h2
+        simp only [h2, if_true]
+        unfold pnmReadText at hfull ⊢
+        exact ok_crop_id _ _ _ _ s _ _ img hfull hin
+      · rename_i h2
+        simp only [h2, if_false]
+        split at hfull
+        · rename_i h3
+          simp only [h3, if_true]
+          unfold pnmReadBin at hfull ⊢
+          exact ok_crop_id _ _ _ _ s _ _ img hfull hin
+        · cases hfull
+
+/-! ### RLE BMP: the clause FAILS on the current tree
+
+-- OPEN (not proven; false on the current tree, witness below):
+--   theorem C13_crop_bmp_rle : bmpRead init file Settings.full want = .ok img → bmpIsRle file = true → s.Inside img.w img.h →
+--       bmpRead init file s want = .ok (crop s img)
+-/
+
+/-- a 1×2 RLE8 file (2-entry palette: row 0 = entry 1, row 1 = entry 0): stored bottom-up as `01 00 00 00 | 01 01 00 00 | 00 01` -/
+def rleWitnessFile : Bytes :=
+  bmpHeaderRaw ++ [5, 6, 7, 0, 9, 10, 11, 0] ++ [1, 0, 0, 0, 1, 1, 0, 0, 0, 1]
+where bmpHeaderRaw : Bytes :=
+  [0x42, 0x4D] ++ le32 72 ++ le16 0 ++ le16 0 ++ le32 62 ++ le32 40 ++ le32 1 ++ le32 2 ++ le16 1 ++ le16 8 ++ le32 1 ++ le32 10 ++
+  le32 0 ++ le32 0 ++ le32 2 ++ le32 0
+
+/-- full read: rows (entry 1), (entry 0); the sub-rectangle (0,0) 1×1 returns entry 0 -- the BOTTOM row -- instead of the top one -/
+theorem C13_bmp_rle_crop_witness :
+    bmpRead ⟨0xEE, 0xEE, 0xEE, 0xEE⟩ rleWitnessFile Settings.full (some 24) = Res.ok ⟨1, 2, [[⟨11, 10, 9, 0⟩], [⟨7, 6, 5, 0⟩]]⟩ ∧
+    bmpRead ⟨0xEE, 0xEE, 0xEE, 0xEE⟩ rleWitnessFile { tlx := 0, tly := 0, dx := 1, dy := 1 } (some 24) = Res.ok ⟨1, 1, [[⟨7, 6, 5, 0⟩]]⟩ ∧
+    crop { tlx := 0, tly := 0, dx := 1, dy := 1 } (⟨1, 2, [[⟨11, 10, 9, 0⟩], [⟨7, 6, 5, 0⟩]]⟩ : Img Rgba8) = ⟨1, 1, [[⟨11, 10, 9, 0⟩]]⟩ := by
+  decide
+
+/-- and with `top_left.x > 0` the reader indexes its `dim.x`-wide row buffer at `top_left.x`: out of bounds -/
+def rleWitnessFile2 : Bytes :=
+  [0x42, 0x4D] ++ le32 68 ++ le16 0 ++ le16 0 ++ le32 62 ++ le32 40 ++ le32 2 ++ le32 1 ++ le16 1 ++ le16 8 ++ le32 1 ++ le32 6 ++
+  le32 0 ++ le32 0 ++ le32 2 ++ le32 0 ++ [5, 6, 7, 0, 9, 10, 11, 0] ++ [2, 1, 0, 0, 0, 1]
+
+theorem C13_bmp_rle_crop_ub_witness :
+    bmpRead ⟨0xEE, 0xEE, 0xEE, 0xEE⟩ rleWitnessFile2 { tlx := 1, tly := 0, dx := 1, dy := 1 } (some 24) = Res.ub := by
+  decide
+
+/-- what remains true for RLE files: explicit full-size settings equal the default settings -/
+theorem C13_crop_bmp_rle_partial (init : Rgba8) (file : Bytes) (want : Option Nat) (info : BmpInfo) (cur : Bytes)
+    (hh : bmpReadHeader file = some (info, cur)) (hw : 0 < info.width.toNat) (hhp : 0 < info.height.toNat) :
+    bmpRead init file { tlx := 0, tly := 0, dx := info.width.toNat, dy := info.height.toNat } want = bmpRead init file Settings.full want := by
+  simp only [bmpRead, hh, bmpReadRle, bmpReadData, readRows, Settings.full, Settings.dimX, Settings.dimY]
+  simp [Nat.ne_of_gt hw, Nat.ne_of_gt hhp]
+
+/-! ### scanline reader rows = rows of the full read -/
+
+private theorem slice_decRow {α} (f : PixFmt α) (w : Nat) (bs : Bytes) : sliceRow 0 w (decRow f w bs) = decRow f w bs := by
+  have := sliceRow_full (decRow f w bs)
+  rwa [length_decRow] at this
+
+/-- bmp scanline_reader::read(buffer, pos) for 24 / 32 bit files: the buffer, seen with the file's pixel layout, is row `pos` of read_image -/
+theorem C13_scanline_bmp {α} (f : PixFmt α) (file : Bytes) (info : BmpInfo) (pos : Nat) (hp : pos < info.height.toNat) :
+    (bmpReadData f file info Settings.full).rows[pos]? = some (decRow f info.width.toNat (bmpScanRow file info pos)) := by
+  simp only [bmpReadData, readRows, bmpScanRow, readAt, Settings.full, Settings.dimX, Settings.dimY, if_true, Nat.add_zero]
+  rw [List.getElem?_map, List.getElem?_range hp]
+  simp only [Option.map_some, slice_decRow]
+
+/-- targa scanline_reader::read (raw bottom-up files) -/
+theorem C13_scanline_targa {α} (f : PixFmt α) (file : Bytes) (info : TgaInfo) (pos : Nat) (hp : pos < info.height)
+    (hb : info.originBit = false) :
+    (tgaReadRaw f file info Settings.full).rows[pos]? = some (decRow f info.width (tgaScanRow file info pos)) := by
+  rw [tgaReadRaw_eq f file info _ (by simp [Settings.Inside, Settings.full, Settings.dimX, Settings.dimY])]
+  simp only [readRows, tgaRowOff, tgaScanRow, readAt, hb, Settings.full, Settings.dimX, Settings.dimY, if_true, Nat.add_zero,
+    Bool.false_eq_true, if_false]
+  rw [List.getElem?_map, List.getElem?_range hp]
+  simp only [Option.map_some, slice_decRow]
+
+/-- pnm scanline_reader (binary byte rows, read in sequence) -/
+theorem C13_scanline_pnm {α} (f : PixFmt α) (data : Bytes) (info : PnmInfo) (pos : Nat) (hp : pos < info.height) :
+    (pnmReadBin f data info Settings.full).rows[pos]? = some (decRow f info.width (pnmScanRow data info pos)) := by
+  simp only [pnmReadBin, readRows, pnmScanRow, readAt, Settings.full, Settings.dimX, Settings.dimY, if_true, Nat.add_zero]
+  rw [List.getElem?_map, List.getElem?_range hp]
+  simp only [Option.map_some, slice_decRow]
+
+/-! ### read_image_info reports the dimensions of the image read_image produces -/
+
+theorem C13_info_bmp {α} (f : PixFmt α) (file : Bytes) (img : Img α) (h : decodeBmp f file Settings.full = some img) :
+    ∃ info cur, bmpReadHeader file = some (info, cur) ∧ img.w = info.width.toNat ∧ img.h = info.height.toNat ∧ info.bpp = f.size * 8 := by
+  unfold decodeBmp at h
+  cases hh : bmpReadHeader file with
+  | none => rw [hh] at h; cases h
+  | some p =>
+    obtain ⟨info, cur⟩ := p
+    rw [hh] at h
+    simp only at h
+    split at h
+    · split at h
+      · injection h with h
+        subst h
+        rename_i h2
+        exact ⟨info, cur, rfl, by simp [bmpReadData, readRows, Settings.full, Settings.dimX], by simp [bmpReadData, readRows, Settings.full, Settings.dimY], h2.symm⟩
+      · cases h
+    · cases h
+
+theorem C13_info_pnm {α} (f : PixFmt α) (t : Nat) (file : Bytes) (img : Img α) (h : decodePnm f t file Settings.full = some img) :
+    ∃ info data, pnmReadHeader file = some (info, data) ∧ img.w = info.width ∧ img.h = info.height ∧ info.type = t := by
+  unfold decodePnm at h
+  cases hh : pnmReadHeader file with
+  | none => rw [hh] at h; cases h
+  | some p =>
+    obtain ⟨info, data⟩ := p
+    rw [hh] at h
+    simp only at h
+    split at h
+    · injection h with h
+      subst h
+      rename_i h2
+      exact ⟨info, data, rfl, by simp [pnmReadBin, readRows, Settings.full, Settings.dimX], by simp [pnmReadBin, readRows, Settings.full, Settings.dimY], h2⟩
+    · cases h
+
+/-! ### conversion policy -/
+
+/-- BMP rows that go through the conversion policy (15/16, 24, 32 bit): the converting read applies color_convert to the native pixel -/
+theorem C13_convert_bmp_truecolor (bpp : Nat) (dst : Kind) (p : Bytes) (h : bpp ≠ 1 ∧ bpp ≠ 4 ∧ bpp ≠ 8) :
+    bmpConvPixel bpp dst p = if bpp = 32 then colorConvert .rgba8 dst p else colorConvert .rgb8 dst (p.take 3) := by
+  obtain ⟨h1, h4, h8⟩ := h
+  simp [bmpConvPixel, h1, h4, h8]
+
+/-- palette and RLE rows bypass it: a palette entry (0xcb, 0xda, 0x11), whose alpha the reader leaves 0, read with conversion to gray8
+    gives its RED channel, while color_convert of the natively read pixel (rgba8, alpha 0) gives 0 -/
+theorem C13_bmp_palette_convert_witness :
+    bmpConvPixel 8 .gray8 [0xcb, 0xda, 0x11, 0] = [0xcb] ∧ colorConvert .rgba8 .gray8 [0xcb, 0xda, 0x11, 0] = [0] := by
+  decide
+
+/-! ### the row offset, over the definition re-translated from bmp/detail/read.hpp on every run -/
+
+/-- reader::get_offset(pos) with its C arithmetic (int32 height, uint32 offset, size_t pitch, result narrowed to long) is
+    `offset + (height - 1 - pos) * pitch` for every row of a bottom-up image, as long as the file offset fits a long -/
+theorem C13_get_offset (pos height offset pitch : Int) (h0 : 0 ≤ pos) (h1 : pos < height) (hh32 : height < 2147483648) (ho : 0 ≤ offset) (hp : 0 ≤ pitch)
+    (hb : offset + height * pitch < 9223372036854775808) :
+    bmp_get_offset pos height offset pitch = offset + (height - 1 - pos) * pitch := by
+  have hpos : height > 0 := by omega
+  have hle : (height - 1 - pos) * pitch ≤ height * pitch := Int.mul_le_mul_of_nonneg_right (by omega) hp
+  have hnn : 0 ≤ (height - 1 - pos) * pitch := Int.mul_nonneg (by omega) hp
+  have hhp : 0 ≤ height * pitch := Int.mul_nonneg (by omega) hp
+  unfold bmp_get_offset
+  simp only [hpos, if_true]
+  have e1 : (height - 1 - pos) % 18446744073709551616 = height - 1 - pos := Int.emod_eq_of_lt (by omega) (by omega)
+  rw [e1]
+  generalize (height - 1 - pos) * pitch = q at *
+  generalize height * pitch = r at *
+  omega
+
+/-- the hand-written model's offset is that function -/
+theorem C13_get_offset_model (info : BmpInfo) (pitch pos : Nat) (hh : info.height > 0) (hpos : (pos : Int) < info.height) (hh32 : info.height < 2147483648)
+    (hb : (info.offset : Int) + info.height * pitch < 9223372036854775808) :
+    (bmpGetOffset info pitch pos : Int) = bmp_get_offset pos info.height info.offset pitch := by
+  rw [C13_get_offset pos info.height info.offset pitch (by omega) hpos hh32 (by omega) (by omega) hb]
+  simp only [bmpGetOffset, hh, if_true]
+  have : (info.height.toNat : Int) = info.height := Int.toNat_of_nonneg (by omega)
+  have hsub : ((info.height.toNat - 1 - pos : Nat) : Int) = info.height - 1 - pos := by omega
+  push_cast
+  rw [hsub]
+
+example : bmp_get_offset 0 2 54 4 = 58 ∧ bmp_get_offset 1 2 54 4 = 54 := by decide
 
 end GilVerif.Props.C13
